@@ -1,9 +1,25 @@
 // ---- std shims shared by all units (each assume_specification restates the std documentation) ----
 #[verifier::external_type_specification]
-#[verifier::external_body]
 pub struct ExIoErrorKind(std::io::ErrorKind);
+
+pub assume_specification<'a, T: Copy>[ Option::<&'a T>::copied ](o: Option<&'a T>) -> (r: Option<T>)
+    ensures r == (match o { Some(x) => Some(*x), None => None });
+//@trusted std: Option::<&T>::copied() == map(|x| *x) (std documentation)
 
 pub assume_specification[ usize::div_ceil ](a: usize, b: usize) -> (r: usize)
     requires b != 0
     ensures r as int == (a as int + b as int - 1) / (b as int);
 //@trusted std: usize::div_ceil(a,b) == (a+b-1)/b for b != 0 (std documentation)
+// ---- std::io::Error / ErrorKind: opaque values with an uninterpreted `kind` ----
+#[verifier::external_type_specification]
+#[verifier::external_body]
+pub struct ExIoError(std::io::Error);
+
+pub uninterp spec fn io_error_kind(e: std::io::Error) -> std::io::ErrorKind;
+
+pub assume_specification[ std::io::Error::kind ](e: &std::io::Error) -> (r: std::io::ErrorKind)
+    ensures r == io_error_kind(*e);
+
+pub assume_specification[ <std::io::Error as From<std::io::ErrorKind>>::from ](k: std::io::ErrorKind) -> (r: std::io::Error)
+    ensures io_error_kind(r) == k;
+//@trusted std::io::Error: opaque; `Error::from(kind).kind() == kind` (std documentation)
